@@ -948,6 +948,33 @@ pub fn drive_steer(seed: u64, tier: &str, out: &mut Out) {
         }
         em.emit(&obs, out);
     }
+    // an archive whose single-root encoding would be about 70 000 bytes (a length that fits the budget again once it is
+    // narrowed to 16 bits): 17 500 consecutive single-tile entries of 4 bytes each, compression none, both writers
+    for api in [0u8, 1] {
+        let tiles: Vec<(u64, Vec<u8>)> = (0..17_500u64)
+            .map(|i| {
+                let mut b = i.to_le_bytes().to_vec();
+                b.resize(9 + (i % 23) as usize, 0x44);
+                (11 + i, b)
+            })
+            .collect();
+        let mut set = Settings::random(&mut rng, 1);
+        set.ic = 1;
+        let mut ops = vec![Op::New { tt: set.tt, tc: set.tc, api }, Op::Set(set), Op::Bulk(tiles.clone()), Op::Save, Op::Reopen { api: 1 - api }, Op::Count];
+        for _ in 0..20 {
+            ops.push(Op::Get { id: rng.pick(&tiles).0 });
+        }
+        ops.push(Op::Reset);
+        let obs = exec(&ops, false);
+        for o in &obs {
+            if let (Op::Save, Some(b)) = (&o.op, &o.file) {
+                if b.len() >= 127 && u64::from_le_bytes(b[48..56].try_into().expect("8")) > 0 {
+                    spilled += 1;
+                }
+            }
+        }
+        em.emit(&obs, out);
+    }
     println!("stat steer_saves_with_leaf_directories={spilled}");
     println!("stat steer_saves_with_root_near_budget={window}");
 }
